@@ -1,15 +1,17 @@
-/* C17: secp256k1_schnorrsig_inc_aggregate (and _aggregate = n_before 0) - gates and output layout for EVERY
- * n_before, n_new, every buffer length, NULL-or-object for each pointer; every array has its EXACT size.
- *   n_before + n_new wraps => illegal callback and 0 (never UB / out-of-bounds);
- *   *aggsig_len < 32*(n+1) => 0, nothing reported, length untouched;
- *   ret = 1 => *aggsig_len = 32*(n+1);  aggsig[32i..32i+32) = old r_i for i < n_before (untouched),
- *              = new_sigs64[64(i-n_before) .. +32) for n_before <= i < n   (ghost byte index);
- *   ret = 0 on well-formed arguments with enough room only if a public key object was invalid (illegal callback).
- * Randomizer wiring (same run): one running hash from the HalfAgg/randomizer midstate; signature i contributes exactly
- * r_i || be(x(pk_i)) || m_i at stream positions 64+96i.. (r_i from the old aggregate for i < n_before, from new_sigs64
- * otherwise) - the same stream aggverify builds; z_i = digest (mod n) of a finalize at length 64+96(i+1); the product
- * requested is s_i * z_i with s_i = new_sigs64[64(i-n_before)+32..] mod n, for every new i != 0 (none for i = 0).
- * The three loops are closed by the loop contracts in hooks/C17_halfagg_loops.diff. */
+/* C17: secp256k1_schnorrsig_inc_aggregate (and _aggregate = n_before 0) - gates, output layout and oracle usage,
+ * NULL-or-object for each pointer.
+ *   rejections (only what the header promises): n_before + n_new wraps => illegal callback and 0 (never out of bounds);
+ *      other API misuse => illegal callback and 0;  *aggsig_len < 32*(n+1) => 0;
+ *   success (ret = 1) => *aggsig_len = 32*(n+1);  aggsig[32i..32i+32) = old r_i for i < n_before (untouched),
+ *      = new_sigs64[64(i-n_before) .. +32) for n_before <= i < n (ghost byte index);  one running hash from the HalfAgg
+ *      midstate into which every byte of r_i || be(x(pk_i)) || m_i was written at its position 64+96i.. (ghost position; the
+ *      same stream aggverify builds);  for every new signature (ghost index): a randomizer was derived by a finalize at
+ *      stream length 64+96(i+1), and for i != 0 the product s_i * z_i was requested (either operand order); z_0 = 1: the
+ *      aggregate of one signature (r_0, s_0) is (r_0, s_0 mod n);
+ *   completeness: a well-formed call with enough room fails only with an illegal callback (invalid key object).
+ * All usage statements are keyed on VALUES (contracts/assumed_C17.h): no call order, no call counts.
+ * Variants: C17_NBOUND=k (loops unwound, fixed-capacity objects; counts bounded only for calls that pass the gates),
+ * C17_EARLY (only inputs the spec rejects before the first loop; counts and lengths unbounded, exact-size objects). */
 #include "assumed_C17.h"
 #include "src/secp256k1.c"
 #include "post.h"
@@ -25,50 +27,41 @@ void h_inc_aggregate(void) {
     secp256k1_context ctx;
     INPUT(size_t, nb); INPUT(size_t, nnew); INPUT(size_t, alen); INPUT(size_t, gb); INPUT(size_t, gk); INPUT(uint64_t, wpos); INPUT(_Bool, oneshot);
     INPUT(_Bool, use_agg); INPUT(_Bool, use_len); INPUT(_Bool, use_pk); INPUT(_Bool, use_msgs); INPUT(_Bool, use_sigs);
-    unsigned char *aggsig, *msgs, *sigs; secp256k1_xonly_pubkey *pks; size_t n, len, k; int ret, wrap, big, misuse, toosmall;
+    unsigned char *aggsig, *msgs, *sigs, gb_exp = 0; secp256k1_xonly_pubkey *pks; size_t n, len, k; int ret, wrap, big, misuse, toosmall;
     if (oneshot) __CPROVER_assume(nb == 0);
     __CPROVER_assume(alen <= 32 * (NMAX + 1));
-#ifdef C17_NBOUND
-    /* BOUNDED stand-in: loops unwound instead of closed by loop contracts.  The counts are bounded only for calls that get past the gates:
-     * count overflow and "buffer too small" (the buffer has at most C17_NBOUND+2 slots) are checked for ARBITRARY n_before, n_new */
-    __CPROVER_assume(alen <= 32 * (C17_NBOUND + 2));
-    __CPROVER_assume((nb <= C17_NBOUND && nnew <= C17_NBOUND - nb) || nb + nnew < nb || W(alen) < 32 * (W(nb) + W(nnew) + 1));
-#endif
     n = nb + nnew; wrap = n < nb; big = (nb > NMAX || nnew > NMAX);   /* big: the length can never suffice, the arrays must not be touched */
-#ifndef C17_NBOUND
-    INPUT_BUF(aggw, aggsig, alen, 64);
-    pks = malloc((big || n == 0) ? 1 : n * sizeof(*pks)); msgs = malloc((big || n == 0) ? 1 : n * 32); sigs = malloc((big || nnew == 0) ? 1 : nnew * 64);
-    __CPROVER_assume(pks != NULL && msgs != NULL && sigs != NULL);
-#else
-    /* BOUNDED stand-in: fixed-capacity objects (exact object sizes are what the unbounded unit C17.inc_aggregate uses); *aggsig_len <= capacity */
+    toosmall = (W(alen) < 32 * (W(nb) + W(nnew) + 1));
+    misuse = !use_agg || !use_len || (!use_sigs && nnew != 0) || wrap || (!use_pk && n != 0) || (!use_msgs && n != 0);
+#ifdef C17_NBOUND
+    /* BOUNDED stand-in: loops unwound instead of closed by loop contracts; fixed-capacity objects.  The counts are bounded only for
+     * calls that get past the gates: count overflow and "buffer too small" are checked for ARBITRARY n_before, n_new */
+    __CPROVER_assume(alen <= 32 * (C17_NBOUND + 2));
+    __CPROVER_assume((nb <= C17_NBOUND && nnew <= C17_NBOUND - nb) || wrap || toosmall);
     INPUT_ARR(unsigned char, aggbuf, 32 * (C17_NBOUND + 2)); INPUT_ARR(unsigned char, msgbuf, 32 * C17_NBOUND); INPUT_ARR(unsigned char, sigbuf, 64 * C17_NBOUND); INPUT_ARR(secp256k1_xonly_pubkey, pkbuf, C17_NBOUND);
     aggsig = aggbuf; msgs = msgbuf; sigs = sigbuf; pks = pkbuf;
+#else
+    /* exact-size objects */
+    INPUT_BUF(aggw, aggsig, alen, 64);
+    pks = malloc((big || wrap || n == 0) ? 1 : n * sizeof(*pks)); msgs = malloc((big || wrap || n == 0) ? 1 : n * 32); sigs = malloc((big || nnew == 0) ? 1 : nnew * 64);
+    __CPROVER_assume(pks != NULL && msgs != NULL && sigs != NULL);
 #endif
     verif_ctx_init(&ctx); ctx.hash_ctx.fn_sha256_compression = secp256k1_sha256_transform;
-    c17_init_n = 0; c17_mode = 1; c17_aggsig = aggsig; c17_msgs = msgs; c17_pks = pks; c17_sigs = sigs; c17_n = nnew; c17_nb = nb; g_gen_n = 0; c17_phase = 0; c17_mul_n = 0;
-    verif_c17_xo_n = 0; verif_c17_fin_n = 0; verif_c17_bad = 0; verif_c17_rej = 0; verif_c17_whit = 0;
-    toosmall = (W(alen) < 32 * (W(nb) + W(nnew) + 1));
-    verif_c17_gb = gb; verif_c17_gb_exp = 0;
-#ifndef C17_EARLY   /* the early-exit variant never reaches a loop: no expectation about array contents is needed */
-    if (!big && !wrap && !toosmall && gb < 32 * n) { if (gb / 32 < nb) verif_c17_gb_exp = aggsig[gb]; else FOR_IDX(k, gb / 32 - nb) verif_c17_gb_exp = sigs[64 * k + gb % 32]; }
-#endif
-#ifdef C17_EARLY
-    verif_c17_gk = gk; c17_exp_s = 0; c17_exp_r = 0; c17_exp_px = 0; c17_exp_py = 0; verif_c17_wpos = wpos; verif_c17_wexp = 0;
-#else
-    /* s_gk of the gk-th NEW signature, for the product wiring */
-    verif_c17_gk = gk; c17_exp_s = 0; c17_exp_r = 0; c17_exp_px = 0; c17_exp_py = 0; verif_c17_wpos = wpos; verif_c17_wexp = 0;
-    if (!big && !wrap && !toosmall && gk < nnew) FOR_IDX(k, gk) c17_exp_s = be256(sigs + 64 * k + 32);
+    C17_RESET();
+    verif_c17_gk = gk; c17_gk_end = 64 + 96 * ((uint64_t)nb + (uint64_t)gk + 1); c17_exp_r = 0; c17_exp_m = 0; c17_exp_px = 0; c17_exp_py = 0; c17_exp_s = 0;
     verif_c17_wpos = wpos; verif_c17_wexp = 0;
-    if (!big && !wrap && !toosmall && wpos >= 64 && wpos < 64 + 96 * (uint64_t)n) { size_t t = (wpos - 64) / 96, o = (wpos - 64) % 96;
-        FOR_IDX(k, t) verif_c17_wexp = o < 32 ? (k < nb ? aggsig[32 * k + o] : sigs[64 * (k - nb) + o]) : o < 64 ? pks[k].data[31 - (o - 32)] : msgs[32 * k + (o - 64)]; }
+#ifndef C17_EARLY
+    if (!big && !misuse && !toosmall) {
+        if (gb < 32 * n) { if (gb / 32 < nb) gb_exp = aggsig[gb]; else FOR_IDX(k, gb / 32 - nb) gb_exp = sigs[64 * k + gb % 32]; }
+        if (gk < nnew) FOR_IDX(k, gk) c17_exp_s = be256(sigs + 64 * k + 32);    /* s of the gk-th NEW signature */
+        if (wpos >= 64 && wpos < 64 + 96 * (uint64_t)n) { size_t t = (wpos - 64) / 96, o = (wpos - 64) % 96;
+            FOR_IDX(k, t) verif_c17_wexp = o < 32 ? (k < nb ? aggsig[32 * k + o] : sigs[64 * (k - nb) + o]) : o < 64 ? pks[k].data[31 - (o - 32)] : msgs[32 * k + (o - 64)]; }
+    }
+#else
+    /* EARLY-EXIT variant: only calls the specification rejects before the first loop; a call that nevertheless enters a loop trips the unwinding assertion */
+    __CPROVER_assume(misuse || toosmall);
 #endif
     len = alen;
-
-#ifdef C17_EARLY
-    /* EARLY-EXIT variant: only calls the specification rejects before the first loop (misuse, count overflow, buffer too small), counts and
-     * lengths unbounded; a call that nevertheless enters a loop trips the unwinding assertion */
-    __CPROVER_assume(!use_agg || !use_len || (!use_sigs && nnew != 0) || wrap || (!use_pk && n != 0) || (!use_msgs && n != 0) || toosmall);
-#endif
     if (oneshot) ret = secp256k1_schnorrsig_aggregate(&ctx, use_agg ? aggsig : NULL, use_len ? &len : NULL, use_pk ? pks : NULL, use_msgs ? msgs : NULL, use_sigs ? sigs : NULL, nnew);
     else ret = secp256k1_schnorrsig_inc_aggregate(&ctx, use_agg ? aggsig : NULL, use_len ? &len : NULL, use_pk ? pks : NULL, use_msgs ? msgs : NULL, use_sigs ? sigs : NULL, nb, nnew);
 #ifndef C17_NBOUND
@@ -77,12 +70,11 @@ void h_inc_aggregate(void) {
 
     __CPROVER_assert(ret == 0 || ret == 1, "C17 inc_aggregate: returns 0 or 1");
     __CPROVER_assert(g_error == 0, "C17 inc_aggregate: error callback never invoked");
-    if (wrap) __CPROVER_assert(ret == 0 && g_illegal == 1, "C17 inc_aggregate: n_before + n_new overflow reports illegal use and returns 0");
-    misuse = !use_agg || !use_len || (!use_sigs && nnew != 0) || wrap || (!use_pk && n != 0) || (!use_msgs && n != 0);
-    if (misuse) { __CPROVER_assert(ret == 0 && g_illegal == 1 && len == alen && verif_c17_fin_n == 0 && verif_c17_whit == 0 && c17_init_n == 0, "C17 inc_aggregate: API misuse reports illegal use, returns 0, aggregates nothing"); 
+    if (wrap) __CPROVER_assert(ret == 0 && g_illegal >= 1, "C17 inc_aggregate: n_before + n_new overflow reports illegal use and returns 0");
+    if (misuse) { __CPROVER_assert(ret == 0 && g_illegal >= 1, "C17 inc_aggregate: API misuse reports illegal use and returns 0");
         if (wrap) REACH("inc_aggregate count overflow");
         REACH("inc_aggregate API misuse"); return; }
-    if (toosmall) { __CPROVER_assert(ret == 0 && g_illegal == 0 && len == alen && verif_c17_whit == 0 && c17_init_n == 0, "C17 inc_aggregate: buffer smaller than 32*(n+1) returns 0 and touches nothing");
+    if (toosmall) { __CPROVER_assert(ret == 0, "C17 inc_aggregate: buffer smaller than 32*(n+1) returns 0");
         if (alen == 32 * n && n > 1) REACH("inc_aggregate buffer one slot short");
         if (big) REACH("inc_aggregate huge count");
         return; }
@@ -90,25 +82,26 @@ void h_inc_aggregate(void) {
     if (ret == 1) {
         __CPROVER_assert(g_illegal == 0, "C17 inc_aggregate: success without callback");
         __CPROVER_assert(W(len) == 32 * (W(n) + 1), "C17 inc_aggregate: *aggsig_len = 32*(n+1) on success");
-        if (gb < 32 * n) __CPROVER_assert(aggsig[gb] == verif_c17_gb_exp, "C17 inc_aggregate: old r's untouched, new r's copied to slots n_before..n-1");
-        __CPROVER_assert(verif_c17_bad == 0 && verif_c17_fin_n == nnew && c17_init_n == 1, "C17 inc_aggregate: one running hash, one randomizer per new signature from a finalize at length 64+96(i+1), products s_i*z_i (i != 0), hash bytes as specified");
-        __CPROVER_assert(c17_mul_n == nnew - ((nb == 0 && nnew > 0) ? 1 : 0), "C17 inc_aggregate: exactly one product s_i*z_i per new signature i != 0 (z_0 = 1 only for the very first signature)");
-        if (wpos >= 64 && wpos < 64 + 96 * (uint64_t)n) __CPROVER_assert(verif_c17_whit, "C17 inc_aggregate: every position of r_i || pk_i || m_i, i < n, is written to the running hash");
+        if (gb < 32 * n) __CPROVER_assert(aggsig[gb] == gb_exp, "C17 inc_aggregate: old r's untouched, new r's copied to slots n_before..n-1");
+        if (n > 0) __CPROVER_assert(c17_init_n >= 1 && verif_c17_bad == 0, "C17 inc_aggregate: success => running hash initialised from the HalfAgg midstate; no watched stream position written with a wrong byte");
+        if (wpos >= 64 && wpos < 64 + 96 * (uint64_t)n) __CPROVER_assert(verif_c17_whit, "C17 inc_aggregate: success => every position of r_i || pk_i || m_i, i < n, is written to the running hash");
+        if (gk < nnew) {
+            __CPROVER_assert(c17_fin_hit, "C17 inc_aggregate: success => a randomizer was derived from the running hash at length 64+96(i+1) for every new signature");
+            if (nb + gk != 0) __CPROVER_assert(c17_mul_hit, "C17 inc_aggregate: success => the product s_i * z_i (either order) was requested for every new signature i != 0");
+            /* z_0 = 1: the aggregate of the single signature (r_0, s_0) is (r_0, s_0 mod n) - unless the code chose to multiply by one through the oracle */
+            else if (nnew == 1) __CPROVER_assert(be256(aggsig + 32) == c17_redn(c17_exp_s) || c17_mul_one_hit || (c17_mul_hit && C17_Z == 1), "C17 inc_aggregate: success => aggregating the single signature (r_0, s_0) gives s = s_0 mod n (z_0 = 1)");
+        }
         if (nb == 0 && nnew == 0) REACH("inc_aggregate empty");
-        #ifndef C17_NBOUND
-        if (nb == 0 && nnew == 3 && gb == 40) REACH("aggregate one-shot n = 3");
-#else
-        if (oneshot && nnew == C17_NBOUND && gb == 40) REACH("aggregate one-shot n = bound");
-#endif
 #ifndef C17_NBOUND
+        if (nb == 0 && nnew == 3 && gb == 40) REACH("aggregate one-shot n = 3");
         if (nb == 1000 && nnew == 1000000 && gb == 32 * 1000 + 31 && wpos == 64 + 96 * 1000 + 3 && alen == 32 * (NMAX + 1)) REACH("inc_aggregate 1000 + 10^6, oversized buffer");
-        if (nb == 5 && nnew == 0 && gb == 159) REACH("inc_aggregate nothing new");
 #else
-        if (nb == 1 && nnew == C17_NBOUND - 1 && gb == 32 + 31 && wpos == 64 + 96 + 3 && alen == 32 * (C17_NBOUND + 2) - 1) REACH("inc_aggregate 1 + rest, oversized buffer");
-        if (nb == 2 && nnew == 0 && gb == 63) REACH("inc_aggregate nothing new");
+        if (oneshot && nnew == C17_NBOUND && gb == 40 && gk == 0) REACH("aggregate one-shot n = bound, first signature");
+        if (nb == 1 && nnew == C17_NBOUND - 1 && gk == 0 && gb == 32 + 31 && wpos == 64 + 96 + 3 && alen == 32 * (C17_NBOUND + 2) - 1) REACH("inc_aggregate 1 + rest, oversized buffer");
+        if (nb == C17_NBOUND && nnew == 0 && gb == 63) REACH("inc_aggregate nothing new");
 #endif
     } else {
-        __CPROVER_assert(g_illegal == 1, "C17 inc_aggregate: well-formed call with enough room fails only on an invalid public key object (illegal callback)");
+        __CPROVER_assert(g_illegal >= 1, "C17 inc_aggregate: well-formed call with enough room fails only on an invalid public key object (illegal callback)");
         if (n > 1) REACH("inc_aggregate invalid key object");
     }
 #endif
